@@ -2,6 +2,7 @@ SPECIFICATION Spec
 CONSTANTS
   Scheds <- SchedsSmall
   Blocking = {2}
+  Panicking = {}
   MaxNow = 6
   MaxStep = 3
   MaxOps = 4
